@@ -51,7 +51,8 @@ func (s *Service) SignedBeaconBlock(ctx context.Context,
 	// We create a cancelable context with a timeout.  When a provider responds we cancel the context to cancel the other requests.
 	ctx, cancel := context.WithTimeout(ctx, s.timeout)
 
-	respCh := make(chan *signedBeaconBlockResp, 1)
+	// One slot per provider, so that a provider answering after the first never blocks on the send.
+	respCh := make(chan *signedBeaconBlockResp, len(s.signedBeaconBlockProviders))
 	for name, provider := range s.signedBeaconBlockProviders {
 		go func(ctx context.Context,
 			name string,
